@@ -489,6 +489,12 @@ def main(tier="quick", seed=0):
         pool = [s for s in scenarios if pc.applicable(e, s)]
         for n_, i in enumerate(rng.choice(len(pool), size=min(per_cost[e.cost], len(pool)), replace=False)):
             jobs.append(("reg", e.name, pool[int(i)], int(rng.integers(0, 1000)), n_ % 2))
+    # larger regression pools (12-18 samples, at least four labels, batches of 3): a regression tree then has several
+    # leaves that hold labeled AND unlabeled samples, where a sentinel that is a number can leak into a statistic
+    bigreg = [dict(x, mode="none", S=[], bs=3) for x in pc.random_scenarios(rng, 400, 12, 18) if len(x["labeled"]) >= 4]
+    for e in REG_ENTRIES.values():
+        for n_ in range(6 if quick else 40):
+            jobs.append(("reg", e.name, bigreg[int(rng.integers(len(bigreg)))], int(rng.integers(0, 1000)), n_ % 2))
     geoms = ["distinct", "duplicates", "all-equal"]
     pats = ["none", "one-class", "all-classes"]
     for name in sorted(CLFS):
